@@ -39,6 +39,7 @@ class Contract:
         self.opaque_raise = kw.pop("opaque_raise", False)
         self.bind = kw.pop("bind", {})
         self.prop = kw.pop("prop", False)
+        self.bounded_only = kw.pop("bounded_only", False)   # executable contract checked on a bounded domain only (never counted as proved)
         self.receiver = kw.pop("receiver", None)    # python expression building `self` for the bounded runner / replay
         self.hints = kw.pop("hints", {})     # clause name -> invariant names its proof needs (others are dropped in the focused stage)
         self.clause_props = kw.pop("clause_props", {})   # clause-name prefix -> properties it belongs to (default: all of serves)
@@ -74,6 +75,14 @@ def spec(name, params, ret, body, rec=False, note="", macro=False, heap=()):
         n, t = p.split(":")
         ps.append((n.strip(), t.strip()))
     SPECS[name] = dict(name=name, params=ps, ret=ret, body=body, rec=rec, note=note, macro=macro, heap=tuple(heap))
+
+
+PYSPECS = {}
+
+
+def pyspec(name, source):
+    """helper written in plain Python for executable (bounded-only) contracts; `source` defines function `name`"""
+    PYSPECS[name] = source
 
 
 def klass(name, bases=(), fields=None, exception=False, module=None):
